@@ -269,6 +269,8 @@ async fn drive(spec: Value) -> Value {
     let mut readers: HashMap<String, ReaderState> = HashMap::new();
     let mut step_results: Vec<Value> = Vec::new();
     let mut pollers: HashMap<String, Vec<Value>> = HashMap::new();
+    let mut started_writers: Vec<String> = Vec::new();
+    let mut main_started: usize = 0;
     let mut pending_read: Option<(String, bool, tokio::task::JoinHandle<tokio::sync::mpsc::Receiver<Frame>>)> = None;
     let main_results: Arc<Mutex<Vec<Value>>> = Arc::new(Mutex::new(Vec::new()));
 
@@ -280,6 +282,7 @@ async fn drive(spec: Value) -> Value {
         let res: Value = match kind {
             "start_writer" => {
                 let name = step[1].as_str().unwrap().to_string();
+                started_writers.push(name.clone());
                 let frames: Vec<Frame> = spec["writers"][&name]
                     .as_array()
                     .cloned()
@@ -371,8 +374,29 @@ async fn drive(spec: Value) -> Value {
                 tokio::time::sleep(Duration::from_millis(step[1].as_u64().unwrap_or(10))).await;
                 json!("ok")
             }
+            "join" => {
+                // wait until every writer thread started so far has made all its appends
+                let deadline = Instant::now() + Duration::from_millis(step[1].as_u64().unwrap_or(10000));
+                let mut all = false;
+                while Instant::now() < deadline {
+                    {
+                        let st = ctl.m.lock().unwrap();
+                        if started_writers.iter().all(|w| st.done.contains(w))
+                            && main_results.lock().unwrap().len() >= main_started
+                        {
+                            all = true;
+                        }
+                    }
+                    if all {
+                        break;
+                    }
+                    tokio::time::sleep(Duration::from_millis(5)).await;
+                }
+                json!(if all { "ok" } else { "timeout" })
+            }
             "append" => {
                 let f = build_frame(&step[1], &hist);
+                main_started += 1;
                 let store2 = store.clone();
                 let res2 = main_results.clone();
                 let (dtx, drx) = tokio::sync::oneshot::channel::<()>();
@@ -423,6 +447,18 @@ async fn drive(spec: Value) -> Value {
     // finish: everything runs free; drain readers until quiet
     ctl.free(None);
     complete_read(&ctl, &mut pending_read, &mut readers, timeout).await;
+    // every writer thread (and main-thread append) has finished before the readers are drained and the store is read
+    let wdead = Instant::now() + Duration::from_millis(15000);
+    while Instant::now() < wdead {
+        let fin = {
+            let st = ctl.m.lock().unwrap();
+            started_writers.iter().all(|w| st.done.contains(w)) && main_results.lock().unwrap().len() >= main_started
+        };
+        if fin {
+            break;
+        }
+        tokio::time::sleep(Duration::from_millis(5)).await;
+    }
     let settle = Duration::from_millis(spec["settle_ms"].as_u64().unwrap_or(300));
     let hard = Instant::now() + Duration::from_millis(spec["drain_max_ms"].as_u64().unwrap_or(4000));
     for (_, rs) in readers.iter_mut() {
@@ -456,8 +492,7 @@ async fn drive(spec: Value) -> Value {
             }
         }
     }
-    // give writer threads a moment to record their results
-    tokio::time::sleep(Duration::from_millis(50)).await;
+    tokio::time::sleep(Duration::from_millis(20)).await;
     let final_read: Vec<Value> = store.read_sync(None, None, None).map(|f| frame_json(&f)).collect();
     let st = ctl.m.lock().unwrap();
     json!({
